@@ -34,16 +34,23 @@ FirstDiff(s, t) ==
 \* p.prop is the property id; p.a / p.b = [recs, clock, hist, stats, types]
 PairFails(p) ==
     LET pre == p.prop \o "."
-    IN Chk(pre \o "records-identical", p.a.recs = p.b.recs)
-       \cup Chk(pre \o "final-clock-identical", p.a.clock = p.b.clock)
-       \cup Chk(pre \o "tracker-history-identical", p.a.hist = p.b.hist)
+    IN (IF p.prop = "C20" THEN {}
+        ELSE Chk(pre \o "records-identical", p.a.recs = p.b.recs)
+             \cup Chk(pre \o "final-clock-identical", p.a.clock = p.b.clock)
+             \cup Chk(pre \o "tracker-history-identical", p.a.hist = p.b.hist))
        \cup (IF p.prop = "C16"
              THEN Chk("C16.server-busy-time-identical", p.a.busy = p.b.busy)
                   \cup Chk("C16.utilisation-identical", p.a.util = p.b.util)
              ELSE {})
        \cup (IF p.prop = "C20"
              THEN Chk("C20.all-dates-are-decimals", p.a.alldec)
-                  \cup Chk("C20.same-event-order-as-float-run", p.a.order = p.b.order)
+                  \cup Chk("C20.same-records-as-float-run", p.a.order = p.b.order)
+                  \cup Chk("C20.agrees-with-float-run-up-to-rounding",
+                           \* numeric record fields in micro-units differ by at most 2
+                           Len(p.a.nums) = Len(p.b.nums) /\
+                           \A i \in DOMAIN p.a.nums : i \in DOMAIN p.b.nums =>
+                              \A j \in DOMAIN p.a.nums[i] :
+                                 LET d == p.a.nums[i][j] - p.b.nums[i][j] IN d <= 2 /\ d >= -2)
              ELSE {})
 
 Detail(p) == [recs |-> FirstDiff(p.a.recs, p.b.recs), hist |-> FirstDiff(p.a.hist, p.b.hist)]
